@@ -633,3 +633,9 @@ _add_v("C20", "call")          # the body runs on the closure's chain, not the c
 _add_v("C17", "call")          # evaluation order decides which prints precede a failure
 _add_v("C03", "lex_skip")      # skipping blanks and comments terminates (never hangs), also at the end of the input
 _add_v("C18", "bind_next")     # a failing `xs[i] op= v` / `o.k op= v` shows the operator's position first
+
+
+# round-4 seeds
+_add_v("C12", "print_render", "pairs")     # deterministic key order in print / for
+_add_v("C09", "interp")                    # the position of a slot error moves with the layout
+PROPS["C09"]._k = PROPS["C09"]._k + [u for u in props_lexer.C18_UNITS if u not in PROPS["C09"]._k]   # CR is not a line break; columns count characters
